@@ -33,6 +33,14 @@ BULK = [-3.0, -0.5, 0.0, 1.0, 2.5, 10.0]
 TAILS = [64.0, -64.0, 4096.0, -4096.0, 2.0**20, 0.1, 1.0 / 3.0, 1e6 + 0.1]
 
 
+STRESS = [
+    dict(mu=[[0.0, 20000.0], [20000.5, 0.0]], var=[[1e-4, 1.0], [1e-4, 4.0]], w=[0.5, 0.5]),
+    dict(mu=[[-(2.0**15), 3.0], [2.0**15, 3.5]], var=[[2.0**-14, 2.0**10], [2.0**-12, 2.0**-10]], w=[0.125, 0.875]),
+    dict(mu=[[1e6 + 0.1], [1e6 + 0.7], [-1e6]], var=[[1e-3], [2e-3], [1.0]], w=[0.25, 0.5, 0.25]),
+    dict(mu=[[12345.678, -0.001, 1e5]], var=[[1e-6, 1e-6, 1e2]], w=[1.0]),
+]
+
+
 def _weights(C):
     out = []
     for parts in itertools.product(range(1, 9), repeat=C):
@@ -57,6 +65,13 @@ def cases(tier, seed):
                     for floor in ("default", "scalar", "feature", "matrix"):
                         k += 1
                         out.append(dict(C=C, D=D, i=i, j=j, w=w, floor=floor, dask=(k % 4 == 0), seed=seed, tier=tier))
+                        if floor != "default" and (k % 3 == 0 or tier == "thorough"):
+                            # same visible machine reached by another order of public calls: variances first, floors raised afterwards
+                            out.append(dict(C=C, D=D, i=i, j=j, w=w, floor=floor, order="var_then_floor", dask=False, seed=seed, tier=tier))
+    # mixed feature scales: narrow variances with component means far apart (cancellation-prone if the quadratic form is expanded)
+    for st in range(len(STRESS)):
+        for floor in ("default", "matrix"):
+            out.append(dict(stress=st, C=len(STRESS[st]["w"]), D=len(STRESS[st]["mu"][0]), w=STRESS[st]["w"], floor=floor, dask=(st % 2 == 0), seed=seed, tier=tier, i=0, j=0))
     return out
 
 
@@ -65,8 +80,12 @@ def build(case):
 
     s, o = affine(case["seed"])
     C, D = case["C"], case["D"]
-    mu = np.array([[MU[(case["i"] + c + 2 * d) % 5] for d in range(D)] for c in range(C)]) * s + o
-    var = np.array([[VAR[(case["j"] + 2 * c + d) % 5] for d in range(D)] for c in range(C)]) * s * s
+    if "stress" in case:
+        mu = np.array(STRESS[case["stress"]]["mu"]) * s + o
+        var = np.array(STRESS[case["stress"]]["var"]) * s * s
+    else:
+        mu = np.array([[MU[(case["i"] + c + 2 * d) % 5] for d in range(D)] for c in range(C)]) * s + o
+        var = np.array([[VAR[(case["j"] + 2 * c + d) % 5] for d in range(D)] for c in range(C)]) * s * s
     fl = case["floor"]
     if fl == "default":
         floor = None
@@ -78,9 +97,13 @@ def build(case):
         floor = np.array([[[0.5, 2.0**-12, 8.0][(c + d) % 3] for d in range(D)] for c in range(C)]) * s * s
     m = GMMMachine(C, weights=np.array(case["w"]))
     m.means = mu.copy()
-    if floor is not None:
+    if case.get("order") == "var_then_floor":
+        m.variances = var.copy()
         m.variance_thresholds = floor
-    m.variances = var.copy()
+    else:
+        if floor is not None:
+            m.variance_thresholds = floor
+        m.variances = var.copy()
     return m, mu, var, floor, s, o
 
 
@@ -112,6 +135,11 @@ def run_case(case):
     c.close(vis, np.broadcast_to(want_vis, vis.shape), "visible_variances", "variances after floor", tags, rtol=1e-15)
     w = np.array(m.weights, dtype=float)
     X = _samples(D, s, o)
+    if "stress" in case:
+        sd = np.sqrt(vis)
+        pts = [mu[cc] + k * sd[cc] for cc in range(C) for k in (0.0, 0.5, -3.0, 40.0)]
+        pts += [(mu[a_] + mu[b_]) / 2 for a_ in range(C) for b_ in range(a_ + 1, C)]
+        X = np.array(pts)
     n = len(X)
     LL = np.asarray(m.log_likelihood(X))
     LWL = np.asarray(m.log_weighted_likelihood(X))
@@ -171,5 +199,5 @@ def run_case(case):
     c.states = n
     c.traces = c.transitions
     active = floor is not None and bool(np.any(np.broadcast_to(floor, var.shape) > var))
-    sig = "%d|%d|%d|%d|%r|%s" % (C, D, case["i"], case["j"], case["w"], case["floor"])
+    sig = "%d|%d|%d|%d|%r|%s|%s|%s" % (C, D, case["i"], case["j"], case["w"], case["floor"], case.get("order"), case.get("stress"))
     return c.result(nontrivial=(C >= 2 or active), sig=sig)
